@@ -153,6 +153,37 @@ func scenarioC14(r *Run) {
 		r.Count("runs_with_scheduling_points")
 	}
 	total := 0
+	together := false // the next batch opens all its connections at the same instant, scheduling points on
+	// judgeIncomplete: a history whose connections did not all finish says nothing about the footprint after n
+	// versus 2n connections, but it still has to be reclaimed: every application and target hangs up, the client
+	// shuts its session down, and five minutes later nothing of it may remain.
+	judgeIncomplete := func(cs *ConnSet, conns []*LConn) {
+		if smux.SimEarlyFirstFrames > 0 {
+			// the multiplexer's early-first-frame race (known finding under C02) leaves a stream waiting for ever
+			r.Count("history_incomplete_known_smux_race")
+			return
+		}
+		for _, lc := range conns {
+			if lc.App != nil {
+				lc.App.Do(Op{Kind: "close"})
+			}
+			if lc.Tp != nil {
+				lc.Tp.Do(Op{Kind: "close"})
+			}
+		}
+		for _, t := range w.Targets {
+			for _, p := range t.Peers() {
+				p.Do(Op{Kind: "close"})
+			}
+		}
+		w.Client.Upstream.Shutdown()
+		r.RunFor(5 * time.Minute)
+		l := takeLedger(r)
+		if d := base.diff(l); d != "" {
+			r.Info["leaked_goroutine_stacks"] = GoroutineStacks(strings.Split(leakSites(base, l), ","))
+			r.FailSig("not-reclaimed", "carrier="+carrierClass(carrier)+" end=history-incomplete sites="+leakSites(base, l), "a batch of connections did not finish (%v); five minutes after every application and target had hung up and the client had shut its session down the footprint did not return to idle: %s", cs.Describe(), d)
+		}
+	}
 	batch := func(count int) bool {
 		conns := make([]*LConn, count)
 		for i := range conns {
@@ -186,7 +217,7 @@ func scenarioC14(r *Run) {
 				}
 			}
 			var evs []Ev
-			if open < overlap {
+			if open < overlap || together {
 				evs = cs.OpenEv(nil)
 			}
 			// a side closes only after it has received everything: this check is about reclamation, not data loss
@@ -217,7 +248,10 @@ func scenarioC14(r *Run) {
 			}
 			return true
 		}
-		if yieldy {
+		if together {
+			cs.Together = true
+		}
+		if yieldy || together {
 			r.YieldsOn("yield-seed")
 		}
 		out := r.Drive(pol, goal, extra, 2*time.Minute, 60*time.Minute)
@@ -226,9 +260,11 @@ func scenarioC14(r *Run) {
 			return false
 		}
 		if out != GoalMet {
-			// connections that do not finish are C01/C17's subject; here they only make the history unusable
+			// connections that do not finish are C01/C17's subject; here the history is unusable for the
+			// growth comparison, but whatever it left behind must still be reclaimed
 			r.Count("history_incomplete")
 			r.Info["incomplete"] = cs.Describe()
+			judgeIncomplete(cs, conns)
 			return false
 		}
 		// silent peers: somebody connects to the server endpoint at carrier level, says nothing for longer
@@ -297,9 +333,27 @@ func scenarioC14(r *Run) {
 	}
 	r.RunFor(150 * time.Second)
 	l1 := takeLedger(r)
+	// In one run of three (stream carriers) the session is lost between the two batches, unnoticed by anybody,
+	// and the second batch opens its connections at the same instant with scheduling points on: they all find
+	// the dead session. The footprint after 2n connections must still be the one after n.
+	if !strings.HasPrefix(carrier, "stdio") && !CarrierIsKCP(carrier) && !CarrierIsDNS(carrier) && c.Chance(1, 3, "session-lost-mid-history") {
+		for _, cn := range ClientCarrierConns(w) {
+			if c.Chance(1, 2, "mid-loss-timeout") && !strings.HasPrefix(carrier, "unix") {
+				r.Net.TimeoutKill(cn)
+				r.Count("fault_carrier_timeout")
+			} else {
+				r.Net.Reset(cn)
+				r.Count("fault_carrier_reset")
+			}
+		}
+		r.Count("session_lost_mid_history")
+		r.RunFor(time.Duration(1+c.Pick(10, "mid-loss-wait-s")) * time.Second)
+		together = true
+	}
 	if !batch(n) {
 		return
 	}
+	together = false
 	r.RunFor(150 * time.Second)
 	l2 := takeLedger(r)
 	r.NonTriv = true
